@@ -11,6 +11,7 @@ Streams
   textlines   theorem-hypothesis tie for C02_tag_lines / C02_tag_lines_general: texts of several tag lines
   infolines   theorem-hypothesis tie for C02_extract_exact / C02_file_exact: texts of licence, contributor, notice and information-free
               lines in any order; where the line-by-line hypotheses hold the result must be exactly what is planted
+  blocklines  the same with ignore blocks hiding further lines (C02_extract_exact_with_blocks / C02_file_exact_with_blocks)
   lint        a sample of grid files through `reuse lint --json`
   window      tag lines around the 4096-byte boundary, multi-byte characters on the cut, snippet marker before / after / absent
   snippetfile files with a snippet marker: the marker straddling 4096*k and every buffer-size-like offset from 4 KiB to 1 MiB (powers of two,
@@ -808,6 +809,120 @@ class InfoLinesStream(Stream):
     def nontrivial(self, case, impl_out):
         k = self.key(case)
         return k if k in getattr(self, "_hyp", ()) else None
+
+    def show(self, case):
+        return {"text": self.text(case), "planted": self.planted(case)}
+
+
+IGNORE_START = "REUSE-IgnoreStart"
+IGNORE_END = "REUSE-IgnoreEnd"
+MARKER_DECOS = [("# ", ""), ("// ", ""), ("<!-- ", " -->"), ("", ""), ("/* ", " */"), ("\t; ", "  "), (" * ", "")]
+
+
+class BlockLinesStream(InfoLinesStream):
+    name = "blocklines"
+    rule = ("the texts of `infolines` with 1-2 ignore blocks inserted at line boundaries (marker lines in seven comment spellings; hidden "
+            "part: 0-3 grid tag lines / notices / free lines, sometimes a second REUSE-IgnoreStart; sometimes a last block that is never "
+            "closed).  The driver evaluates the hypotheses of C02_extract_exact_with_blocks / C02_file_exact_with_blocks (Spec.chunksOK, "
+            "the visible parts glued together are the theorem's text of lines, Spec.InfoLine.ok for each of them incl. the seam lines); where "
+            "they hold extract_reuse_info and reuse_info_of_file must return exactly what is planted in the visible lines — nothing of "
+            "what the blocks hide; non-trivial = hypotheses hold")
+
+    def cases(self, tier, rng):
+        pool = [c for c in grid_cases(tier, rng, 1) if "frame" not in c["deco"] and (c["kind"] in "LN" or c["parts"]["p"] is not None)]
+        n = 3000 if tier == "thorough" else 350
+
+        def item():
+            if rng.random() < 0.35:
+                return {"free": rng.choice(FREE_LINES)}
+            return {"grid": dict(rng.choice(pool), eol="\n")}
+
+        for _ in range(n):
+            entries = [item() for _ in range(rng.randint(1, 6))]
+            for _ in range(rng.randint(1, 2)):
+                (mpre, mpost), (epre, epost) = rng.choice(MARKER_DECOS), rng.choice(MARKER_DECOS)
+                hidden = [item() for _ in range(rng.randint(0, 3))]
+                if rng.random() < 0.2:
+                    hidden.insert(rng.randint(0, len(hidden)), {"free": "# " + IGNORE_START})
+                entries.insert(rng.randint(0, len(entries)), {"block": {"mpre": mpre, "mpost": mpost, "epre": epre, "epost": epost, "hidden": hidden}})
+            if rng.random() < 0.25:
+                mpre, mpost = rng.choice(MARKER_DECOS)
+                entries.append({"open": {"mpre": mpre, "mpost": mpost, "hidden": [item() for _ in range(rng.randint(0, 2))]}})
+            elif rng.random() < 0.6:
+                entries.append({"free": ""})
+            yield {"entries": entries}
+
+    @staticmethod
+    def line_of(it):
+        if "free" in it:
+            return it["free"]
+        b = case_build(it["grid"])
+        return None if b is None else b["line"]
+
+    def layout(self, case):
+        """(visible parts as for `infolines`, a0, hidden chunks, visible chunks, open chunk or None)"""
+        vis, chunks_v, chunks_h, opn = [], [], [], None
+        cur, first = "", True
+        for e in case["entries"]:
+            sep = "" if first else "\n"
+            if "block" in e or "open" in e:
+                blk = e.get("block") or e["open"]
+                hid = [l for l in (self.line_of(h) for h in blk["hidden"]) if l is not None]
+                first = False
+                chunks_v.append(cur + sep + blk["mpre"])
+                if "block" in e:
+                    chunks_h.append("\n".join([blk["mpost"]] + hid + [blk["epre"]]))
+                    cur = blk["epost"]
+                    vis.append(("O", {"line": blk["mpre"] + blk["epost"]}, None))
+                else:
+                    opn = "\n".join([blk["mpost"]] + hid)
+                    vis.append(("O", {"line": blk["mpre"]}, None))
+                    cur = None
+                continue
+            if "free" in e:
+                part = ("O", {"line": e["free"]}, None)
+            else:
+                b = case_build(e["grid"])
+                if b is None:
+                    continue
+                part = (e["grid"]["kind"], b, e["grid"])
+            cur += sep + part[1]["line"]
+            first = False
+            vis.append(part)
+        if cur is not None:
+            chunks_v.append(cur)
+        return vis, chunks_v[0], chunks_h, chunks_v[1:], opn
+
+    def parts(self, case):
+        # the seam line glues what stands before a start marker to what stands after the matching end marker: when the next entry is a
+        # visible line, it continues on the same physical line only through the line feed, so the visible lines are exactly these
+        return self.layout(case)[0]
+
+    def text(self, case):
+        vis, a0, hs, vs, opn = self.layout(case)
+        t = a0
+        for h, v in zip(hs, vs):
+            t += IGNORE_START + h + IGNORE_END + v
+        if opn is not None:
+            t += IGNORE_START + opn
+        return t
+
+    def visible_text(self, case):
+        return "\n".join(b["line"] for _, b, _ in self.parts(case))
+
+    def model_lines(self, case):
+        base = InfoLinesStream.model_lines(self, case)
+        if not base:
+            return []
+        vis, a0, hs, vs, opn = self.layout(case)
+        if len(hs) != len(vs):
+            return []
+        fields = base[0].split("\t")[1:]
+        return ["c02blocks\t%s\t%s\t%s\t%s\t%s" % (enc(a0), enc_list(hs), enc_list(vs), "none" if opn is None else "some:" + enc(opn),
+                                                    "\t".join(fields))]
+
+    def key(self, case):
+        return repr(case["entries"])
 
     def show(self, case):
         return {"text": self.text(case), "planted": self.planted(case)}
@@ -1678,7 +1793,7 @@ def search(seed):
 
 PROPERTY = Property(
     pid="C02",
-    streams=[CorpusStream(), textcorr.FindTagStream(), textcorr.CSearchStream(), textcorr.ExtractStream(), SmallEnumStream(), GridStream(), TheoremStream(), TextTieStream(), InfoLinesStream(),
+    streams=[CorpusStream(), textcorr.FindTagStream(), textcorr.CSearchStream(), textcorr.ExtractStream(), SmallEnumStream(), GridStream(), TheoremStream(), TextTieStream(), InfoLinesStream(), BlockLinesStream(),
              LintStream(), WindowStream(), SnippetFileStream(), NotationStream(), ParseErrorStream(), DecodeStream()],
     assumptions=[
         "CPython's re engine on the tag patterns (`^(.*?)TAG[ \\t]+(.*?)END$`, MULTILINE, findall) and on the three copyright patterns is "
